@@ -269,7 +269,10 @@ func (m *Model) Apply(op Op) Expect {
 	switch op.Op {
 	case "WriteFile", "Writer":
 		if len(rel) == 0 {
-			return skip("write to the receiver's own root")
+			if n := root.Lookup(p); n != nil && n.Dir {
+				return Expect{Err: Yes} // the receiver's root is a directory
+			}
+			return skip("write to a receiver root that is not a directory")
 		}
 		if root.filePrefix(p) {
 			return Expect{Err: Yes}
